@@ -127,6 +127,32 @@ Definition obs_ok (owner : list peer) (o : pmobs) : bool :=
   | None => true
   end.
 
+(* connections a peer currently has, according to the notifications seen so far (never negative) *)
+Definition cnt_step (cs : peer -> N) (l : plabel) : peer -> N :=
+  match l with
+  | LConnected p => fun x => if N.eqb x p then cs x + 1 else cs x
+  | LDisconnected p => fun x => if N.eqb x p then cs x - 1 else cs x
+  | _ => cs
+  end.
+
+(* no process outlives the last disconnect: checked on the observed trace *)
+Fixpoint outlive_ok (cs : peer -> N) (owner : list peer) (ls : list plabel) (obs : list pmobs) : bool :=
+  match ls, obs with
+  | [], [] => true
+  | l :: ls', o :: obs' =>
+      let cs' := cnt_step cs l in
+      match l with
+      | LDisconnected p =>
+          if N.eqb (cs' p) 0
+          then forallb (fun x => negb (N.eqb (fst x) p && N.eqb (snd x) 0)) (combine owner (po_status o))
+          else true
+      | _ => true
+      end && outlive_ok cs' owner ls' obs'
+  | _, _ => false
+  end.
+
 Record pmcase := { pmc_labels : list plabel; pmc_owner : list peer; pmc_obs : list pmobs }.
 Definition pmcase_agrees (c : pmcase) : bool := list_eqb pmobs_eqb (pm_trace pm_new (pmc_labels c)) (pmc_obs c).
-Definition pmcase_mon (c : pmcase) : bool := forallb (obs_ok (pmc_owner c)) (pmc_obs c).
+Definition pmcase_mon (c : pmcase) : bool :=
+  forallb (obs_ok (pmc_owner c)) (pmc_obs c) &&
+  outlive_ok (fun _ => 0) (pmc_owner c) (pmc_labels c) (pmc_obs c).
